@@ -30,7 +30,7 @@ def main():
     sids = sorted(x for x in os.listdir(os.path.join(ROOT, "seeded")) if os.path.isdir(os.path.join(ROOT, "seeded", x)))
     if len(sys.argv) > 1:
         sids = [s for s in sids if any(s.startswith(a) for a in sys.argv[1:])]
-    with cf.ThreadPoolExecutor(max_workers=4) as ex:
+    with cf.ThreadPoolExecutor(max_workers=int(os.environ.get("JOBS", "4"))) as ex:
         for sid, res, err in ex.map(run_seed, sids):
             if err:
                 print(sid, "ERROR", err)
